@@ -1,0 +1,98 @@
+//go:build verif && unix
+
+package daemon
+
+// Named pause points for the verification harness (property C27).
+//
+// Inert unless the environment variable ELVISH_VERIF_PAUSE names the unix
+// socket of a controller. At each pause point the process reports
+//
+//	<pid> TAB <parent> TAB <point> TAB <arg> TAB <id of the file at sockpath> LF
+//
+// on one persistent connection and blocks until the controller answers with
+// one line. <parent> is ELVISH_VERIF_PARENT (set by verifSpawnEnv in the
+// spawning shell) or "-". The file id is inode:mtime-ns of Lstat(sockpath),
+// or "-" when there is no such file.
+
+import (
+	"bufio"
+	"fmt"
+	"net"
+	"os"
+	"sync"
+	"syscall"
+)
+
+const (
+	verifPauseEnv  = "ELVISH_VERIF_PAUSE"
+	verifParentEnv = "ELVISH_VERIF_PARENT"
+)
+
+var verifCtl struct {
+	mu     sync.Mutex
+	tried  bool
+	conn   net.Conn
+	reader *bufio.Reader
+}
+
+func verifSockID(sockpath string) string {
+	fi, err := os.Lstat(sockpath)
+	if err != nil {
+		return "-"
+	}
+	ino := uint64(0)
+	if st, ok := fi.Sys().(*syscall.Stat_t); ok {
+		ino = uint64(st.Ino)
+	}
+	return fmt.Sprintf("%d:%d", ino, fi.ModTime().UnixNano())
+}
+
+func verifBool(b bool) int {
+	if b {
+		return 1
+	}
+	return 0
+}
+
+func verifPause(point, sockpath string, arg int) {
+	ctl := os.Getenv(verifPauseEnv)
+	if ctl == "" {
+		return
+	}
+	verifCtl.mu.Lock()
+	defer verifCtl.mu.Unlock()
+	if !verifCtl.tried {
+		verifCtl.tried = true
+		conn, err := net.Dial("unix", ctl)
+		if err != nil {
+			return
+		}
+		verifCtl.conn = conn
+		verifCtl.reader = bufio.NewReader(conn)
+	}
+	if verifCtl.conn == nil {
+		return
+	}
+	parent := os.Getenv(verifParentEnv)
+	if parent == "" {
+		parent = "-"
+	}
+	_, err := fmt.Fprintf(verifCtl.conn, "%d\t%s\t%s\t%d\t%s\n",
+		os.Getpid(), parent, point, arg, verifSockID(sockpath))
+	if err != nil {
+		return
+	}
+	// Block until the controller releases this process.
+	verifCtl.reader.ReadString('\n')
+}
+
+// verifSpawnEnv hands the controller address to the daemon being spawned
+// (procAttrForSpawn gives it an empty environment).
+func verifSpawnEnv(attr *os.ProcAttr) {
+	ctl := os.Getenv(verifPauseEnv)
+	if ctl == "" || attr == nil {
+		return
+	}
+	attr.Env = append(attr.Env, verifPauseEnv+"="+ctl,
+		fmt.Sprintf("%s=%d", verifParentEnv, os.Getpid()))
+}
